@@ -1,4 +1,5 @@
 import GA.M.Pack
+import GA.M.Export
 import GA.Proofs.RAll
 import GA.Proofs.NonInterf
 /-
@@ -218,6 +219,45 @@ theorem tar_self_consistent (src : Str) (o : PackOpts) (w : World) (hov : o.over
   simp only
   rw [hes]
   exact ⟨fun e he => hst.dirSlash e (by simpa using he), linksOK_reverse_spec st.out hst.links⟩
+
+/-! ### exported layers (`ExportChanges`) -/
+
+theorem export_inv (o : PackOpts) (dirS : Str) (now : Int) (hov : o.overlay = false) :
+    ∀ (cs : List Change) (st : PackState), StInv st → (exportLoop o dirS now cs st).All StInv := by
+  intro cs
+  induction cs with
+  | nil => intro st h; exact h
+  | cons c cs ih =>
+    intro st h
+    simp only [exportLoop]
+    split
+    · refine ih _ (h.push _ ?_ ?_)
+      · intro hd; simp [whiteoutHdr] at hd
+      · intro hl; simp [whiteoutHdr] at hl
+    · exact rbind_all _ _ (addTarFile_inv o st _ _ h hov) (fun st2 h2 => ih st2 h2)
+
+/-- **every layer `ExportChanges` produces, for every change list, ID map, clock value and filesystem**:
+    directory names end in "/", and every hard-link entry follows, and names, an earlier non-link
+    entry of the same archive -/
+theorem export_self_consistent (dirS : Str) (changes : List Change) (um gm : List IDRange) (now : Int) (w : World) :
+    let es := ((exportP dirS changes um gm now).run w).1
+    (∀ e ∈ es, e.typ = .dir → hasSuffix e.name slashStr = true) ∧
+    (∀ (i : Nat) (e : Entry), es[i]? = some e → e.typ = .link →
+      ∃ j t, j < i ∧ es[j]? = some t ∧ t.name = e.linkname ∧ t.typ ≠ .link) := by
+  have hall : (exportR dirS changes um gm now).All (fun es => ∃ st : PackState, StInv st ∧ es = st.out.reverse) := by
+    unfold exportR
+    have h0 : StInv ({} : PackState) := ⟨by simp, trivial, by simp⟩
+    exact rbind_all _ _ (export_inv _ dirS now rfl _ {} h0) (fun st hst => ⟨st, hst, rfl⟩)
+  obtain ⟨st, hst, hes⟩ := RProg.All.run (exportR dirS changes um gm now) w hall
+  unfold exportP
+  simp only
+  rw [hes]
+  exact ⟨fun e he => hst.dirSlash e (by simpa using he), linksOK_reverse_spec st.out hst.links⟩
+
+/-- a deletion marker is a plain empty file named by the whiteout prefix; it never carries data -/
+theorem whiteoutHdr_shape (path : Str) (now : Int) :
+    (whiteoutHdr path now).typ = .reg ∧ (whiteoutHdr path now).size = 0 ∧ (whiteoutHdr path now).body = [] ∧
+    (whiteoutHdr path now).mtime = now := ⟨rfl, rfl, rfl, rfl⟩
 
 /-! ### reproducibility: the producers consult no clock, no random source and no map order -/
 
